@@ -11,8 +11,8 @@ from hypothesis import strategies as st
 HOSTILE = ['__class__', '__globals__', '{0.__class__.__mro__}', '%s', 'os', '/etc/hostname', '1+1', "__import__('os')",
            'r', '__init__', '{0.__init__.__globals__}', 'eval', '../../etc/passwd', '%(a)s', '{}', '__builtins__']
 NUMSTR = ['12', '-3', ' 7 ', '1_000', '0x1F', '1e3', '12.7', 'abc', '', '١٢', '0b11', '1+1', 'nan', 'inf', '1e400']
-STRS = ['', 'a', 'ab12', 'x y', 'Hello World', 'a,b,,c', 'aaa', ' pad ', 'AbC', 'line1\nline2']
-PATS = [r'\d+', 'a(b)?', '(', '[a-c]+', r'(\w)(\d)', 'x|y', '^a', '$', r'(?P<n>a)', '.*']
+STRS = ['a' * 32 + 'b', '', 'a', 'ab12', 'x y', 'Hello World', 'a,b,,c', 'aaa', ' pad ', 'AbC', 'line1\nline2']
+PATS = ['(a|aa)+$', r'\d+', 'a(b)?', '(', '[a-c]+', r'(\w)(\d)', 'x|y', '^a', '$', r'(?P<n>a)', '.*']
 FLAGS = ['', 'i', 'ims', 'x', 'IMS', None]
 SEPS = [', ', '', '-', '\n', ' ']
 KEYS = ['a', 'b', 'k', '1', 'zz', D(1), 1, True, None, D('1.0')]
